@@ -52,6 +52,8 @@ class NpShim:
     def arange(self, start, stop=None, step=1, *a, **k):
         if not _has_sym(start, stop, step):
             return _np.arange(start, stop, step, *a, **k)
+        if any(isinstance(x, SF) for x in (start, stop, step)):
+            return fp_arange(start, stop, step)
         if a or k:
             raise Unsupported('arange with dtype on proxies')
         if not (step > 0):
@@ -83,6 +85,27 @@ class NpShim:
                 raise Unsupported('numpy.%s on a proxy' % name)
             return real(*a, **k)
         return guarded
+
+
+def fp_arange(start, stop, step):
+    """exact model of numpy.arange on doubles: length = ceil((stop - start)/step) evaluated in double arithmetic
+    (_calc_length), elements start + i*delta with delta = (start + step) - start (DOUBLE_fill)"""
+    import z3
+    from . import fp
+    eng = fp._E
+    q = (stop - start) / step
+    n = None
+    for k in getattr(eng, 'round_candidates', ()):
+        if k < 0:
+            continue
+        c = z3.And(z3.fpGT(fp.FT(q), fp._c(k - 1)), z3.fpLEQ(fp.FT(q), fp._c(k))) if k > 0 else z3.fpLEQ(fp.FT(q), fp._c(0))
+        if eng.branch(c):
+            n = k
+            break
+    if n is None:
+        raise Pruned('arange length outside the candidate integers')
+    delta = (start + step) - start
+    return [start + i * delta if i else start for i in range(n)]
 
 
 def sfloat(x=0.0):
